@@ -28,6 +28,9 @@ func (in *Interp) runCase(name string, fn *ssa.Function, args []int, deadline ti
 	in.violations = nil
 	in.violSeen = map[string]int{}
 	in.pending = []pendingPath{{}}
+	for _, m := range in.cfg.stubMissing {
+		in.cs.Inconclusive = append(in.cs.Inconclusive, "configuration: stub function "+m+" not found in the harness package")
+	}
 	in.cacheHits, in.unknownFeas, in.crossChecked = 0, 0, 0
 	before := in.solver.Stats
 	before.Fallback = map[string]int{}
